@@ -175,11 +175,19 @@ def make_harness(cname: str, cls: type, alts: dict[str, str], fixed: dict[str, i
         want = cs.layout(I, spec, view, True)
         e1 = models.bytes_eq(I, pdu.t, want)
         I.prove("E-layout(pdu-equals-ISO-layout)", e1)
+        if spec.get("iocp_states"):
+            recs = z3.And(recs, models.seq_len(argmap[spec["iocp_states"]].t) >= 1)
+
+        def fail2(name: str, detail: str) -> None:
+            # a failing path is reported under two names, so that the known class "accepted
+            # although a documented minimal length is violated" cannot mask other inputs
+            I.prove(name + "{documented-lengths-respected}", z3.Not(recs), detail)
+            I.prove(name + "{a-documented-minimal-length-is-violated}", recs, detail)
         # dynamic parser: typed, same fields, same bytes
         r = I.call(S.UDSRequest.parse_dynamic, pdu)
         if not (isinstance(r, VObj) and r.cls is dyn_cls):
-            I.fail("N-no-raw(parse_dynamic-yields-the-registry-class)",
-                   f"got {r.cls.__name__ if isinstance(r, VObj) else r!r}")
+            fail2("N-no-raw(parse_dynamic-yields-the-registry-class)",
+                  f"got {r.cls.__name__ if isinstance(r, VObj) else r!r}")
         else:
             rv = cs.read_view(I, r, dyn_spec, True)
             if dyn_cls is cls and not spec.get("merge_tail"):
@@ -198,7 +206,7 @@ def make_harness(cname: str, cls: type, alts: dict[str, str], fixed: dict[str, i
         try:
             r2 = I.call_v(I.getattr_v(VConst(cls), "from_pdu"), [pdu], {})
         except PyExc as e:
-            I.fail("R-own(from_pdu-accepts-own-pdu)", f"raised {e.exc.cls.__name__}")
+            fail2("R-own(from_pdu-accepts-own-pdu)", f"raised {e.exc.cls.__name__}")
             return
         if not (isinstance(r2, VObj) and r2.cls is cls):
             I.fail("R-own(from_pdu-accepts-own-pdu)", "wrong class")
